@@ -394,6 +394,8 @@ def one_run(case, root, injector):
   # the experiment may be given its directory as a URI (file:///...), as remote
   # file systems are; the harness keeps looking at the plain local path
   root_arg = 'file://' + root if case.get('root_as_uri') else root
+  if case.get('root_trailing_slash'):
+    root_arg += '/'      # a directory named the way shells complete it
   config = fe.FederatedExperimentConfig(
       root_dir=root_arg, num_rounds=cfg['num_rounds'],
       checkpoint_frequency=cfg['checkpoint_frequency'],
@@ -584,6 +586,8 @@ def labels(case):
     ls.append('dirname_special')
   if case.get('ballast_mib'):
     ls.append('state_of_%d_MiB' % case['ballast_mib'])
+  if case.get('root_trailing_slash'):
+    ls.append('root_dir_with_trailing_slash')
   return ls
 
 
@@ -609,6 +613,7 @@ def schedule_strategy(draw, tier):
                    seed=draw(st.integers(0, 50)))
   case['dirname'] = draw(st.sampled_from(DIRNAMES))
   case['root_as_uri'] = draw(st.integers(0, 3)) == 0
+  case['root_trailing_slash'] = draw(st.integers(0, 3)) == 0
   if nr <= 3 and cf >= 1 and draw(st.integers(0, 11)) == 0:
     case['ballast_mib'] = 17      # every checkpoint is an 17 MiB pickle
   # crash indices are drawn inside the effect stream of an uninterrupted run of
